@@ -6,6 +6,7 @@ Search: whole programs (generated, rich in the rewritten constructs; the interp 
 bool == tree changed, simplified tree prints/re-parses/prints identically, and printed original vs printed simplified
 behave the same (stdout + exit status) under interp.Runner and under bash 5.2."""
 import json
+import time
 import re
 
 from vcheck import coq_list
@@ -85,6 +86,7 @@ Print W_%s.
 
 def run(ctx):
     ctx.coq_props()
+    ctx.extra.setdefault("timing", {})["props"] = round(time.time() - ctx.t0, 1)
     quick = ctx.tier == "quick"
     binp = ctx.go_build("c04")
     if not binp:
@@ -96,6 +98,7 @@ def run(ctx):
         ctx.broken.append(("harness-run", "c04 code failed rc=%d %s" % (rc, err[-800:])))
         return
     code_leg(ctx, rows)
+    ctx.extra.setdefault("timing", {})["code"] = round(time.time() - ctx.t0, 1)
     changed = [r for r in rows if r["m"]]
     ctx.count(len(rows), [(r["k"], r["b"]) for r in changed])
     for r in changed[:3]:
